@@ -97,8 +97,11 @@ pub open spec fn bft_ratio(rs: Rs, min_trust: f64) -> f64 {
 pub open spec fn confirming_regions(rs: Rs) -> nat {
     confirming_of(rs).filter(|r: CloseGroupResponse| r.peer_region.is_some()).map_values(|r: CloseGroupResponse| r.peer_region.unwrap()).to_set().len()
 }
-/// the collusion flag of detect_collusion_indicators over the given (trusted) witnesses
-pub uninterp spec fn collusion_flag(rs: Rs) -> bool;
+/// the collusion flag of detect_collusion_indicators over the given (trusted) witnesses: a function of
+/// their response latencies only (the function reads nothing else; ASSUMED with its contract)
+pub uninterp spec fn collusion_of(latencies: Seq<Duration>) -> bool;
+pub open spec fn lat_seq(rs: Rs) -> Seq<Duration> { rs.map_values(|r: CloseGroupResponse| r.response_latency) }
+pub open spec fn collusion_flag(rs: Rs) -> bool { collusion_of(lat_seq(rs)) }
 
 impl CloseGroupValidator {
     // ASSUMED: reads the AtomicBool
@@ -160,4 +163,359 @@ pub fn verif_filter_count<'a, P: Fn(&&&'a CloseGroupResponse) -> bool>(s: &Vec<&
     ensures r == s@.map_values(|x: &CloseGroupResponse| *x).filter(f).len(),
 {
     s.iter().filter(p).count()
+}
+
+// ---- lemmas over the contracts (the clauses of the statement that need arithmetic) ----------------
+
+/// "with 3f+1 trusted witnesses, f of them answering arbitrarily cannot get a claim accepted that all
+/// the others deny": at most f of the 3f+1 trusted witnesses confirm => BFT mode does not accept
+/// (for every quorum threshold of at least one half; the default is 0.71).
+proof fn lemma_f_liars_cannot_force_acceptance(v: &CloseGroupValidator, rs: Rs, f: nat)
+    requires
+        trusted_of(rs, v.config.min_witness_trust).len() == 3 * f + 1,
+        confirming_of(trusted_of(rs, v.config.min_witness_trust)).len() <= f,
+        f_le(0.5f64, v.config.bft_threshold),
+        3 * f + 1 <= 0xffff_ffff,
+    ensures
+        !bft_accepts(v, rs), // @C15/bft/f_liars_of_3f_plus_1_cannot_force_acceptance
+{
+    let c = confirming_of(trusted_of(rs, v.config.min_witness_trust)).len();
+    let n = trusted_of(rs, v.config.min_witness_trust).len();
+    let ratio = bft_ratio(rs, v.config.min_witness_trust);
+    axiom_f_below_third_is_below_half(c, n);
+    axiom_f_order(ratio, 0.5f64, v.config.bft_threshold);
+    axiom_f_order(0.5f64, v.config.bft_threshold, ratio);
+}
+
+/// every witness weight is in [0, 1] (trust in [0,1], or unknown = 0.5): the property's domain
+pub open spec fn unit_weights(rs: Rs) -> bool {
+    forall|i: int| 0 <= i < rs.len() ==> is_unit(weight_of(#[trigger] rs[i]))
+}
+/// rs2 is rs with the confirmation of witness k turned into a denial (nothing else changes)
+pub open spec fn withdrawn_at(rs: Rs, rs2: Rs, k: int) -> bool {
+    &&& rs.len() == rs2.len() && 0 <= k < rs.len()
+    &&& rs[k].confirms_membership && !rs2[k].confirms_membership
+    &&& forall|i: int| 0 <= i < rs.len() ==> (#[trigger] rs2[i]).peer_trust_score == rs[i].peer_trust_score
+            && rs2[i].peer_region == rs[i].peer_region && rs2[i].response_latency == rs[i].response_latency
+    &&& forall|i: int| 0 <= i < rs.len() && i != k ==> (#[trigger] rs2[i]).confirms_membership == rs[i].confirms_membership
+}
+proof fn lemma_sums(rs: Rs, n: int)
+    requires unit_weights(rs), 0 <= n <= rs.len(),
+    ensures nn_fin(total_w(rs, n)), nn_fin(conf_w(rs, n)), f_le(conf_w(rs, n), total_w(rs, n)),
+    decreases n
+{
+    axiom_f_literals();
+    if n > 0 {
+        lemma_sums(rs, n - 1);
+        let w = weight_of(rs[n - 1]);
+        axiom_f_order(0.0f64, total_w(rs, n - 1), total_w(rs, n - 1));
+        axiom_f_add_monotone(conf_w(rs, n - 1), total_w(rs, n - 1), w);
+        axiom_f_add_monotone(total_w(rs, n - 1), total_w(rs, n - 1), w);
+        axiom_f_order(conf_w(rs, n - 1), total_w(rs, n - 1), total_w(rs, n));
+    } else {
+        axiom_f_order(0.0f64, 0.0f64, 0.0f64);
+    }
+}
+proof fn lemma_withdraw_sums(rs: Rs, rs2: Rs, k: int, n: int)
+    requires unit_weights(rs), withdrawn_at(rs, rs2, k), 0 <= n <= rs.len(),
+    ensures total_w(rs2, n) == total_w(rs, n), f_le(conf_w(rs2, n), conf_w(rs, n)), nn_fin(conf_w(rs2, n)), nn_fin(conf_w(rs, n)),
+    decreases n
+{
+    axiom_f_literals();
+    assert(unit_weights(rs2)) by {
+        assert forall|i: int| 0 <= i < rs2.len() implies is_unit(weight_of(#[trigger] rs2[i])) by { assert(rs2[i].peer_trust_score == rs[i].peer_trust_score); assert(is_unit(weight_of(rs[i]))); }
+    }
+    lemma_sums(rs, n);
+    lemma_sums(rs2, n);
+    if n > 0 {
+        lemma_withdraw_sums(rs, rs2, k, n - 1);
+        lemma_sums(rs, n - 1);
+        lemma_sums(rs2, n - 1);
+        let w = weight_of(rs[n - 1]);
+        assert(weight_of(rs2[n - 1]) == w);
+        if n - 1 == k {
+            axiom_f_order(0.0f64, conf_w(rs, n - 1), conf_w(rs, n - 1));
+            axiom_f_add_monotone(conf_w(rs, n - 1), conf_w(rs, n - 1), w);
+            axiom_f_order(conf_w(rs2, n - 1), conf_w(rs, n - 1), conf_w(rs, n));
+        } else if rs[n - 1].confirms_membership {
+            axiom_f_add_monotone(conf_w(rs2, n - 1), conf_w(rs, n - 1), w);
+        }
+    } else {
+        axiom_f_order(0.0f64, 0.0f64, 0.0f64);
+    }
+}
+/// Normal mode: "turning a confirmation into a denial never turns a rejection into an acceptance".
+proof fn lemma_normal_mode_withdrawal_never_creates_acceptance(v: &CloseGroupValidator, rs: Rs, rs2: Rs, k: int)
+    requires unit_weights(rs), withdrawn_at(rs, rs2, k),
+    ensures normal_accepts(v, rs2) ==> normal_accepts(v, rs), // @C15/normal/withdrawing_a_confirmation_never_creates_acceptance
+{
+    let n = rs.len() as int;
+    lemma_withdraw_sums(rs, rs2, k, n);
+    lemma_sums(rs, n);
+    let t = total_w(rs, n);
+    if f_gt(t, 0.0f64) {
+        axiom_f_div_monotone(conf_w(rs2, n), conf_w(rs, n), t);
+        axiom_f_order(v.config.trust_weighted_threshold, share(rs2), share(rs));
+    }
+}
+/// Normal mode: a unanimous confirmation by witnesses of positive weight is accepted (threshold <= 1).
+proof fn lemma_normal_mode_unanimous_confirmation_is_accepted(v: &CloseGroupValidator, rs: Rs)
+    requires
+        unit_weights(rs), rs.len() >= 1,
+        forall|i: int| 0 <= i < rs.len() ==> (#[trigger] rs[i]).confirms_membership && f_lt(0.0f64, weight_of(rs[i])),
+        f_le(v.config.trust_weighted_threshold, 1.0f64),
+    ensures normal_accepts(v, rs), // @C15/normal/unanimous_confirmation_by_weighted_witnesses_is_accepted
+{
+    let n = rs.len() as int;
+    lemma_all_confirm(rs, n);
+    lemma_sums(rs, n);
+    axiom_f_div_self(total_w(rs, n));
+    axiom_f_order(v.config.trust_weighted_threshold, 1.0f64, share(rs));
+}
+proof fn lemma_all_confirm(rs: Rs, n: int)
+    requires unit_weights(rs), 0 <= n <= rs.len(),
+        forall|i: int| 0 <= i < rs.len() ==> (#[trigger] rs[i]).confirms_membership && f_lt(0.0f64, weight_of(rs[i])),
+    ensures conf_w(rs, n) == total_w(rs, n), n >= 1 ==> f_lt(0.0f64, total_w(rs, n)),
+    decreases n
+{
+    if n > 0 {
+        lemma_all_confirm(rs, n - 1);
+        lemma_sums(rs, n - 1);
+        axiom_f_order(0.0f64, total_w(rs, n - 1), total_w(rs, n - 1));
+        axiom_f_add_monotone(total_w(rs, n - 1), total_w(rs, n - 1), weight_of(rs[n - 1]));
+    }
+}
+
+// ---- BFT mode: withdrawal and unanimity (relational lemmas over the filters) ---------------------
+proof fn lemma_filter_step<A>(s: Seq<A>, f: spec_fn(A) -> bool)
+    requires s.len() > 0,
+    ensures s.filter(f) == (if f(s.last()) { s.drop_last().filter(f).push(s.last()) } else { s.drop_last().filter(f) }),
+{
+    reveal(Seq::filter);
+}
+proof fn lemma_filter_empty<A>(s: Seq<A>, f: spec_fn(A) -> bool)
+    requires s.len() == 0,
+    ensures s.filter(f).len() == 0,
+{
+    reveal(Seq::filter);
+}
+proof fn lemma_filter_sub<A>(s: Seq<A>, f: spec_fn(A) -> bool, i: int) -> (j: int)
+    requires 0 <= i < s.filter(f).len(),
+    ensures f(s.filter(f)[i]), 0 <= j < s.len(), s[j] == s.filter(f)[i],
+    decreases s.len()
+{
+    if s.len() == 0 {
+        lemma_filter_empty(s, f);
+        0
+    } else {
+        lemma_filter_step(s, f);
+        let p = s.drop_last();
+        if f(s.last()) && i == p.filter(f).len() {
+            (s.len() - 1) as int
+        } else {
+            let j = lemma_filter_sub(p, f, i);
+            assert(p[j] == s[j]);
+            j
+        }
+    }
+}
+proof fn lemma_filter_sup<A>(s: Seq<A>, f: spec_fn(A) -> bool, j: int) -> (i: int)
+    requires 0 <= j < s.len(), f(s[j]),
+    ensures 0 <= i < s.filter(f).len(), s.filter(f)[i] == s[j],
+    decreases s.len()
+{
+    lemma_filter_step(s, f);
+    let p = s.drop_last();
+    if j == s.len() - 1 {
+        p.filter(f).len() as int
+    } else {
+        assert(p[j] == s[j]);
+        let i = lemma_filter_sup(p, f, j);
+        i
+    }
+}
+/// b is a with some confirmations withdrawn (trust, region, latency of every witness unchanged)
+pub open spec fn withdrawn(a: Rs, b: Rs) -> bool {
+    &&& a.len() == b.len()
+    &&& forall|i: int| 0 <= i < a.len() ==> (#[trigger] b[i]).peer_trust_score == a[i].peer_trust_score && b[i].peer_region == a[i].peer_region
+            && b[i].response_latency == a[i].response_latency && (b[i].confirms_membership ==> a[i].confirms_membership)
+}
+proof fn lemma_withdrawn_drop_last(a: Rs, b: Rs)
+    requires withdrawn(a, b), a.len() > 0,
+    ensures withdrawn(a.drop_last(), b.drop_last()),
+{
+    assert forall|i: int| 0 <= i < a.drop_last().len() implies (#[trigger] b.drop_last()[i]).peer_trust_score == a.drop_last()[i].peer_trust_score
+        && b.drop_last()[i].peer_region == a.drop_last()[i].peer_region && b.drop_last()[i].response_latency == a.drop_last()[i].response_latency
+        && (b.drop_last()[i].confirms_membership ==> a.drop_last()[i].confirms_membership) by {
+        assert(b.drop_last()[i] == b[i] && a.drop_last()[i] == a[i]);
+    }
+}
+proof fn lemma_withdrawn_push(a: Rs, b: Rs, x: CloseGroupResponse, y: CloseGroupResponse)
+    requires withdrawn(a, b), y.peer_trust_score == x.peer_trust_score, y.peer_region == x.peer_region, y.response_latency == x.response_latency,
+        y.confirms_membership ==> x.confirms_membership,
+    ensures withdrawn(a.push(x), b.push(y)),
+{
+    assert forall|i: int| 0 <= i < a.push(x).len() implies (#[trigger] b.push(y)[i]).peer_trust_score == a.push(x)[i].peer_trust_score
+        && b.push(y)[i].peer_region == a.push(x)[i].peer_region && b.push(y)[i].response_latency == a.push(x)[i].response_latency
+        && (b.push(y)[i].confirms_membership ==> a.push(x)[i].confirms_membership) by {
+        if i < a.len() { assert(b.push(y)[i] == b[i] && a.push(x)[i] == a[i]); }
+    }
+}
+/// the trusted witnesses of b are those of a, with some confirmations withdrawn
+proof fn lemma_trusted_withdrawn(a: Rs, b: Rs, mt: f64)
+    requires withdrawn(a, b),
+    ensures withdrawn(trusted_of(a, mt), trusted_of(b, mt)),
+    decreases a.len()
+{
+    let f = |r: CloseGroupResponse| trusted(r, mt);
+    if a.len() == 0 {
+        lemma_filter_empty(a, f);
+        lemma_filter_empty(b, f);
+    } else {
+        lemma_withdrawn_drop_last(a, b);
+        lemma_trusted_withdrawn(a.drop_last(), b.drop_last(), mt);
+        lemma_filter_step(a, f);
+        lemma_filter_step(b, f);
+        assert(b.last() == b[b.len() - 1] && a.last() == a[a.len() - 1]);
+        assert(trusted(a.last(), mt) == trusted(b.last(), mt));
+        if trusted(a.last(), mt) {
+            lemma_withdrawn_push(trusted_of(a.drop_last(), mt), trusted_of(b.drop_last(), mt), a.last(), b.last());
+        }
+    }
+}
+proof fn lemma_confirming_len(a: Rs, b: Rs)
+    requires withdrawn(a, b),
+    ensures confirming_of(b).len() <= confirming_of(a).len(),
+    decreases a.len()
+{
+    let f = |r: CloseGroupResponse| r.confirms_membership;
+    if a.len() == 0 {
+        lemma_filter_empty(a, f);
+        lemma_filter_empty(b, f);
+    } else {
+        lemma_withdrawn_drop_last(a, b);
+        lemma_confirming_len(a.drop_last(), b.drop_last());
+        lemma_filter_step(a, f);
+        lemma_filter_step(b, f);
+        assert(b.last() == b[b.len() - 1] && a.last() == a[a.len() - 1]);
+    }
+}
+proof fn lemma_lat_seq(a: Rs, b: Rs)
+    requires withdrawn(a, b),
+    ensures lat_seq(a) == lat_seq(b),
+{
+    assert(lat_seq(a) =~= lat_seq(b)) by {
+        assert forall|i: int| 0 <= i < a.len() implies lat_seq(a)[i] == lat_seq(b)[i] by { assert(b[i].response_latency == a[i].response_latency); }
+    }
+}
+/// the known regions of the confirming witnesses, as a set
+pub open spec fn region_set(rs: Rs) -> Set<String> {
+    confirming_of(rs).filter(|r: CloseGroupResponse| r.peer_region.is_some()).map_values(|r: CloseGroupResponse| r.peer_region.unwrap()).to_set()
+}
+proof fn lemma_region_member(rs: Rs, g: String)
+    ensures region_set(rs).contains(g) <==> exists|i: int| 0 <= i < rs.len() && (#[trigger] rs[i]).confirms_membership && rs[i].peer_region == Some(g),
+{
+    let f1 = |r: CloseGroupResponse| r.confirms_membership;
+    let f2 = |r: CloseGroupResponse| r.peer_region.is_some();
+    let c = rs.filter(f1);
+    let d = c.filter(f2);
+    let m = d.map_values(|r: CloseGroupResponse| r.peer_region.unwrap());
+    if region_set(rs).contains(g) {
+        assert(m.contains(g));
+        let j = choose|j: int| 0 <= j < m.len() && m[j] == g;
+        let k = lemma_filter_sub(c, f2, j);
+        let i = lemma_filter_sub(rs, f1, k);
+        assert(rs[i].confirms_membership && rs[i].peer_region == Some(g));
+    }
+    if exists|i: int| 0 <= i < rs.len() && (#[trigger] rs[i]).confirms_membership && rs[i].peer_region == Some(g) {
+        let i = choose|i: int| 0 <= i < rs.len() && (#[trigger] rs[i]).confirms_membership && rs[i].peer_region == Some(g);
+        let k = lemma_filter_sup(rs, f1, i);
+        let j = lemma_filter_sup(c, f2, k);
+        assert(m[j] == g);
+        assert(m.contains(g));
+    }
+}
+proof fn lemma_regions_withdrawn(a: Rs, b: Rs)
+    requires withdrawn(a, b),
+    ensures confirming_regions(b) <= confirming_regions(a),
+{
+    assert(region_set(b).subset_of(region_set(a))) by {
+        assert forall|g: String| region_set(b).contains(g) implies region_set(a).contains(g) by {
+            lemma_region_member(b, g);
+            lemma_region_member(a, g);
+            let i = choose|i: int| 0 <= i < b.len() && (#[trigger] b[i]).confirms_membership && b[i].peer_region == Some(g);
+            assert(a[i].confirms_membership && a[i].peer_region == Some(g));
+        }
+    }
+    let ma = confirming_of(a).filter(|r: CloseGroupResponse| r.peer_region.is_some()).map_values(|r: CloseGroupResponse| r.peer_region.unwrap());
+    vstd::set_lib::lemma_len_subset(region_set(b), region_set(a));
+}
+/// BFT mode: "turning a confirmation into a denial never turns a rejection into an acceptance".
+proof fn lemma_bft_withdrawal_never_creates_acceptance(v: &CloseGroupValidator, a: Rs, b: Rs)
+    requires withdrawn(a, b), a.len() <= u64::MAX,
+    ensures bft_accepts(v, b) ==> bft_accepts(v, a), // @C15/bft/withdrawing_a_confirmation_never_creates_acceptance
+{
+    let mt = v.config.min_witness_trust;
+    lemma_trusted_withdrawn(a, b, mt);
+    let ta = trusted_of(a, mt);
+    let tb = trusted_of(b, mt);
+    lemma_confirming_len(ta, tb);
+    lemma_lat_seq(ta, tb);
+    lemma_regions_withdrawn(a, b);
+    broadcast use vstd::seq_lib::group_filter_ensures;
+    let n = ta.len();
+    let ca = confirming_of(ta).len();
+    let cb = confirming_of(tb).len();
+    assert(n <= a.len());
+    assert(ca <= n);
+    if bft_accepts(v, b) {
+        assert(n >= 1 || v.config.min_peers_to_query == 0);
+        axiom_f_of_nat(cb, ca);
+        axiom_f_of_nat(ca, ca);
+        axiom_f_of_nat(n, n);
+        if n >= 1 {
+            axiom_f_div_monotone(f_of_nat(cb), f_of_nat(ca), f_of_nat(n));
+            axiom_f_order(v.config.bft_threshold, bft_ratio(b, mt), bft_ratio(a, mt));
+        } else {
+            assert(cb == 0 && ca == 0);
+        }
+    }
+}
+
+proof fn lemma_filter_all<A>(s: Seq<A>, f: spec_fn(A) -> bool)
+    requires forall|i: int| 0 <= i < s.len() ==> f(#[trigger] s[i]),
+    ensures s.filter(f) == s,
+    decreases s.len()
+{
+    if s.len() == 0 {
+        lemma_filter_empty(s, f);
+        assert(s.filter(f) =~= s);
+    } else {
+        let p = s.drop_last();
+        assert forall|i: int| 0 <= i < p.len() implies f(#[trigger] p[i]) by { assert(p[i] == s[i]); }
+        lemma_filter_all(p, f);
+        lemma_filter_step(s, f);
+        assert(f(s[s.len() - 1]));
+        assert(p.push(s.last()) =~= s);
+    }
+}
+/// BFT mode: "a unanimous confirmation ... by enough trusted, regionally spread witnesses with distinct
+/// response times is always accepted" (distinct response times = the collusion heuristic raises no flag;
+/// quorum threshold at most 1).
+proof fn lemma_bft_unanimous_confirmation_is_accepted(v: &CloseGroupValidator, rs: Rs)
+    requires
+        forall|i: int| 0 <= i < rs.len() ==> trusted(#[trigger] rs[i], v.config.min_witness_trust) && rs[i].confirms_membership,
+        rs.len() >= 1, rs.len() >= v.config.min_peers_to_query, rs.len() <= u64::MAX,
+        confirming_regions(rs) >= v.config.min_regions,
+        !collusion_flag(rs),
+        f_le(v.config.bft_threshold, 1.0f64),
+    ensures bft_accepts(v, rs), // @C15/bft/unanimous_confirmation_by_trusted_spread_witnesses_is_accepted
+{
+    let mt = v.config.min_witness_trust;
+    lemma_filter_all(rs, |r: CloseGroupResponse| trusted(r, mt));
+    lemma_filter_all(rs, |r: CloseGroupResponse| r.confirms_membership);
+    let n = rs.len();
+    axiom_f_of_nat(n, n);
+    axiom_f_div_self(f_of_nat(n));
+    axiom_f_order(v.config.bft_threshold, 1.0f64, bft_ratio(rs, mt));
 }
